@@ -35,7 +35,7 @@ fn grads_by_node(ex: &Exec, m: &RefState) -> HashMap<usize, Option<G>> {
 /// the pass at step `k` alone: a fresh instance runs every construction step before it (no passes, no clears)
 fn alone(hist: &History, k: usize) -> Result<HashMap<usize, Option<G>>, String> {
     let mut ex = Exec::new();
-    let mut m = RefState::new(0);
+    let mut m = RefState::forward_only();
     for s in &hist.steps[..k] {
         match s {
             Step::Backward { .. } | Step::ClearGrad { .. } => {}
